@@ -385,8 +385,10 @@ def gen_C16(rng, tier):
             if rng.random() < 0.25:
                 # the odd one out is a contig of size 0 (only an empty chain at position 0 can declare it): 0 is a size like any
                 # other, not "not seen yet"
-                c.update(blocks=[(0,)], tstart=0, tend=0, qstart=0, qend=0)
-                c[side + "size"] = 0
+                declared = [x[side + "size"] for x in f if x[side + "name"] == c[side + "name"]]
+                if all(d != 0 for d in declared):   # otherwise 0 would not be another size
+                    c.update(blocks=[(0,)], tstart=0, tend=0, qstart=0, qend=0)
+                    c[side + "size"] = 0
             if rng.random() < 0.5:
                 c[("q" if side == "t" else "t") + "name"] += "_o"
             g = list(f)
